@@ -1,7 +1,6 @@
 package kvstore
 
 import (
-	"fmt"
 	"sync"
 
 	ipfslog "berty.tech/go-ipfs-log"
@@ -37,12 +36,20 @@ func (i *kvIndex) UpdateIndex(oplog ipfslog.Log, _ []ipfslog.Entry) error {
 	for idx := range entries {
 		item, err := operation.ParseOperation(entries[size-idx-1])
 		if err != nil {
-			return fmt.Errorf("unable to parse log kv operation: %w", err)
+			// an entry whose payload is not an operation changes nothing: giving
+			// up here would keep every entry below it out of the view for good
+			continue
 		}
 
 		key := item.GetKey()
 		if key == nil {
 			// ignoring entries with nil keys
+			continue
+		}
+
+		// an operation this view does not apply must not shadow the older
+		// operations on its key either
+		if op := item.GetOperation(); op != "PUT" && op != "DEL" {
 			continue
 		}
 
